@@ -524,3 +524,25 @@ func init() {
 		mutant{Name: "constant-imports-registered-for-every-untyped-constant", Prop: "C18", File: "extract/extract.go", Old: "\tdefault:\n\t\treturn name\n\t}\n\n\timports[\"go/constant\"] = true\n\timports[\"go/token\"] = true\n\n\treturn fmt.Sprintf(", New: "\tdefault:\n\t\timports[\"go/constant\"] = true\n\t\timports[\"go/token\"] = true\n\t\treturn name\n\t}\n\n\timports[\"go/constant\"] = true\n\timports[\"go/token\"] = true\n\n\treturn fmt.Sprintf(", Rule: "R18.12", Key: "fixConst/import:go/constant#3/registered-where-it-is-used"},
 	)
 }
+
+func init() {
+	addMutants(
+		// D124 reverted, one spelling at a time
+		mutant{Name: "alignof-misspelt-in-the-selector-case", Prop: "C03", File: "interp/cfg.go", Old: "name == \"Alignof\" || name == \"Offsetof\"", New: "name == \"AlignOf\" || name == \"Offsetof\"", Rule: "R03.23", Key: "package/unsafe-builtin-names-agree"},
+		mutant{Name: "alignof-misspelt-in-the-builtin-case", Prop: "C03", File: "interp/cfg.go", Old: "case \"unsafe.Alignof\", \"unsafe.Offsetof\", \"unsafe.Sizeof\":", New: "case \"unsafe.alignOf\", \"unsafe.Offsetof\", \"unsafe.Sizeof\":", Rule: "R03.23", Key: "package/unsafe-builtin-names-agree"},
+	)
+}
+
+func init() {
+	addMutants(
+		// D125 reverted
+		mutant{Name: "range-over-channels-taken-for-a-range-over-a-channel", Prop: "C01", File: "interp/scope.go", Old: "\tif len(n.child) != 3 {\n\t\t// The range over a channel has one iteration variable at most: in the form\n\t\t// with a key and a value, child[1] is the value variable, not the ranged expression.\n\t\treturn nil\n\t}\n\tif sym, _, found := s.lookup(n.child[1].ident); found {\n\t\tif t := sym.typ; t != nil && (t.cat == chanT || t.cat == chanRecvT) {\n", New: "\tif sym, _, found := s.lookup(n.child[1].ident); found {\n\t\tif t := sym.typ; len(n.child) == 3 && t != nil && (t.cat == chanT || t.cat == chanRecvT) {\n", Rule: "R01.38", Key: "scope.rangeChanType/return#2/only-for-the-form-without-key"},
+	)
+}
+
+func init() {
+	addMutants(
+		// D126 reverted
+		mutant{Name: "panic-value-left-in-the-frame-it-leaves", Prop: "C06", File: "interp/run.go", Old: "\t\t\tr := f.recovered\n\t\t\tf.recovered = nil\n\t\t\tf.mutex.Unlock()\n\t\t\tpanic(r)\n", New: "\t\t\tf.mutex.Unlock()\n\t\t\tpanic(f.recovered)\n", Rule: "R06.18", Key: "runCfg/re-panic#1/value-not-left-in-the-frame"},
+	)
+}
